@@ -710,6 +710,8 @@ def c07_cases(st, shape_stride, seed):
         shapes = c.pop("shapes")
         n += 1
         pc = dict(c)
+        if n % 3 == 0 and pc.get("fac", {}).get("mode") in ("str", "raw"):
+            pc["fac"] = dict(pc["fac"], layout=True)      # every third file in an unusual but valid layout
         pc["prepare_log"] = True
         pc["prepare_only"] = True
         pc["group"] = n
